@@ -28,6 +28,8 @@ def configs():
 
 
 CONFIGS = configs()
+# the statement allows every integer >= 1: at the four finest resolutions (where neighbouring ring points are closest) also 32 and 64 per edge
+FINE_CONFIGS = [('closed=<omitted>,segments=32', {'segments': 32}), ('closed=False,segments=64', {'closed_ring': False, 'segments': 64})]
 
 
 def seg_intersect(p1, p2, p3, p4):
@@ -97,7 +99,7 @@ def check_cell(acc, a5, c, r, label):
         acc.violation(f'c12:{label}:corners-raise', f'cell_to_boundary({c:#x}, segments=1) raised {type(e).__name__}: {e}', {'cell': hex(c), 'r': r, 'config': 'segments=1'})
         return
     auto_len = {}
-    for cname, opts in CONFIGS:
+    for cname, opts in (CONFIGS + FINE_CONFIGS if r >= 26 else CONFIGS):
         acc.n['transitions'] += 1
         case = {'cell': hex(c), 'r': r, 'config': cname}
         k = f'c12:{label}:{cname}'
@@ -241,7 +243,7 @@ def run(tier, t0):
         acc.merge(part)
     acc.sample({'cell': hex(rm.encode((9, 1, 2))), 'configs': [c for c, _ in CONFIGS[:4]] + ['... 25 in total']})
     rule = (f'every cell of resolutions 0..{R}, G1[basic] digit-pattern cells and the cells around both poles, 24 antimeridian points and the 62 frame points at resolutions up to 29, each x 25 option '
-            'combinations (options=None, closed_ring in {omitted, True, False} x segments in {omitted, None, "auto" (as the literal and as an equal string built at run time), 1, 2, 3, 7, 16}); a transition is one cell_to_boundary call; non-trivial = cells')
+            'combinations (options=None, closed_ring in {omitted, True, False} x segments in {omitted, None, "auto" (as the literal and as an equal string built at run time), 1, 2, 3, 7, 16}; at resolutions 26..29 also segments 32 and 64); a transition is one cell_to_boundary call; non-trivial = cells')
     return common.finish(PID, LEVEL, tier, acc, t0, rule, [
         'simple + counter-clockwise is decided in the gnomonic plane at the ring centroid (great-circle arcs are straight there): O(n) bearing test, exact O(n^2) crossing test + signed area before reporting',
         'the pole exemption is decided by the independent oracle (pole inside the ring or within 1e-9 rad of it)',
